@@ -93,6 +93,17 @@ CURATED = [
     # chains (exercise the n-ary list constructors and flattening)
     ('concat', C, ('concat', C, C)), ('union', C, ('union', 'eps', C)), ('inter', ('star', C), ('inter', ('comp', C), 'allchar')),
     ('diff', ('diff', 'all', C), C), ('union', ('union', C, 'none'), ('union', 'all', C)),
+    # subsumption among complements that only arises inside a derivative or under an intersection
+    ('inter', ('union', ('comp', C), ('comp', R)), C), ('union', ('comp', ('concat', C, C)), ('comp', ('concat', ('ref', 0), R))),
+    ('union', ('comp', ('concat', 'allchar', C)), ('comp', ('concat', C, R))),
+    # predefined terms (Sigma+, Sigma, epsilon, Sigma*) next to the first terms a fresh manager creates (id adjacency)
+    ('inter', ('plus', 'allchar'), C), ('union', ('plus', 'allchar'), C), ('inter', C, ('plus', 'allchar')), ('inter', 'allchar', C),
+    ('union', 'allchar', C), ('inter', ('plus', 'allchar'), ('comp', C)), ('diff', ('plus', 'allchar'), C),
+    # unions whose operands differ by a loop that cannot match the empty string (subsumption must not drop the shorter one)
+    ('union', C, ('concat', ('ref', 0), ('plus', C))), ('union', ('concat', C, C), ('concat', ('ref', 0), ('concat', ('loop', C), ('ref', 1)))),
+    ('union', C, ('concat', ('ref', 0), ('plus', 'allchar'))),
+    # nullable bodies under loops with lower bound >= 1 that cannot be flattened
+    ('plus', ('union', ('star', C), C)), ('power', ('concat', ('opt', C), ('opt', C))), ('concat', ('plus', ('concat', ('star', C), ('star', C))), C),
     # nullable left operands (derivative of concat must look at the right operand)
     ('concat', ('star', C), C), ('concat', ('opt', R), ('opt', R)), ('concat', ('union', 'eps', C), R),
     ('concat', ('comp', C), C), ('concat', ('inter', ('star', C), ('star', C)), C),
@@ -117,6 +128,16 @@ QUICK_CPU_CAP = {'C01': 600.0, 'C03': 150.0, 'C05': 600.0, 'C18': 60.0, 'C02': 6
 # CPU seconds per shape measured with the C19 harness (lib/shape_costs.json); harnesses that do less per path afford more
 
 
+# shapes taken into a property's quick tier although they exceed its cost cap (each guards a rule that no cheaper shape
+# reaches for that property)
+FORCE_QUICK = {
+    'C02': ["plus(union(star(char),char))"],
+    'C03': ["plus(union(star(char),char))", "union(comp(char),comp(range))"],
+    'C05': ["inter(plus(allchar),char)"],
+    'C19': ["plus(union(star(char),char))"],
+}
+
+
 def quick_list(prop, seed):
     """quick tier: the curated shapes whose measured exploration cost is below the cap (shapes with several independent
     ranges fork on the relative order of all end points and are left to the thorough tier; each rewrite rule they
@@ -128,7 +149,7 @@ def quick_list(prop, seed):
         if c is None:
             if nsym(sh) <= 1:
                 out.append(sh)
-        elif c <= QUICK_CPU_CAP.get(prop, 40.0):
+        elif c <= QUICK_CPU_CAP.get(prop, 40.0) or show(sh) in FORCE_QUICK.get(prop, ()):
             out.append(sh)
     return out
 
@@ -190,6 +211,10 @@ def cat(xs):
 
 
 PAIRS_CURATED = [
+    (('comp', C), ('comp', R)), (('comp', R), ('comp', C)), (('comp', ('str', 2)), ('comp', cat(['all', C, 'all']))),
+    # a loop that cannot match the empty string between rigid parts
+    (C, cat([C, ('plus', C)])), (cat([C, C]), cat([C, ('loop', C), C])), (cat([C, ('star', C), C]), cat([C, ('plus', 'allchar'), C])),
+    (cat([C, ('opt', C), C]), cat([C, ('loopinf', 'allchar'), C])),
     # flexible slots that are NOT Sigma*: a loop Sigma^[k,inf) with k >= 1 must not be treated as Sigma*
     (cat([C, C]), cat([C, ('plus', 'allchar'), C])), (C, cat([C, ('loopinf', 'allchar')])), (cat([C, C]), cat([C, ('plus', 'allchar')])),
     (cat([C, C]), cat([('plus', 'allchar'), C])), (cat([C, 'allchar', C]), cat([C, ('loopinf', 'allchar'), C])),
